@@ -94,7 +94,8 @@ func (s *sim) produceStep() {
 	wd := before - s.acceptedPrefix(true)
 	err := s.n.M.VerifPublishBlock(s.ctx)
 	after := s.height()
-	if err != nil {
+	if err != nil && (after != before || (wh < s.c.Limit && wd < s.c.Limit)) {
+		// (an error that merely says "declined, the limit is reached" is a way of declining)
 		s.viol = append(s.viol, "production step failed: "+err.Error())
 		return
 	}
@@ -110,7 +111,11 @@ func (s *sim) produceStep() {
 		s.r.Hit("produced")
 		if wh >= s.c.Limit || wd >= s.c.Limit {
 			s.r.Count("produced_although_at_limit", 1)
-			s.viol = append(s.viol, fmt.Sprintf("block %d produced although %d headers / %d data items were already waiting (limit %d): the bound is not respected", after, wh, wd, s.c.Limit))
+		}
+		// the limit throttles: with MORE than limit blocks already waiting nothing may be produced (whether the step
+		// that reaches the limit exactly is still taken is the implementation's choice)
+		if wh > s.c.Limit || wd > s.c.Limit {
+			s.viol = append(s.viol, fmt.Sprintf("block %d produced although %d headers / %d data items were already waiting (limit %d): the limit does not throttle", after, wh, wd, s.c.Limit))
 		}
 	}
 }
